@@ -97,8 +97,11 @@ func ctxHarness(rc *RunCtx) {
 	// the context everybody hammers: created here, a clone, or one read off the wire
 	// (the last two start with whatever lazily computed state the implementation keeps "cold")
 	shared := frugal.NewFContext("shared")
-	sharedKind := []string{"new", "clone", "generic-clone", "received"}[tp.Intn("sharedkind", 4)]
+	sharedKind := []string{"new", "clone", "generic-clone", "received", "new-generated-cid"}[tp.Intn("sharedkind", 5)]
 	switch sharedKind {
+	case "new-generated-cid":
+		// the library picks the correlation id: whenever it does so, everybody must see the same one
+		shared = frugal.NewFContext("")
 	case "clone":
 		shared = shared.(frugal.FContextWithEphemeralProperties).Clone()
 	case "generic-clone":
@@ -125,6 +128,16 @@ func ctxHarness(rc *RunCtx) {
 		opids[id] = where
 	}
 	noteOpid(shared, "shared")
+	cidSeen := map[string]string{}
+	noteCid := func(cid, where string) {
+		if cid == "" {
+			rc.Violate("C17", "correlation-id-unstable", "context.go", "empty correlation id observed by "+where)
+		}
+		cidSeen[cid] = where
+		if len(cidSeen) > 1 {
+			rc.Violate("C17", "correlation-id-unstable", "context.go", fmt.Sprintf("one FContext, several correlation ids: %v", cidSeen))
+		}
+	}
 	// a long-running process: contexts made long ago are still around when the
 	// counter reaches a width boundary
 	if b := []uint64{0, 0, 0, 1<<16 - 2, 1<<31 - 2, 1<<32 - 3, 1<<53 - 2, 1<<63 - 2}[tp.Intn("opidbase", 8)]; b != 0 {
@@ -207,6 +220,8 @@ func ctxHarness(rc *RunCtx) {
 							c = shared.(frugal.FContextWithEphemeralProperties).Clone()
 						}
 						noteOpid(c, fmt.Sprintf("task%d/clone-of-shared#%d", t, i))
+						noteCid(c.CorrelationID(), fmt.Sprintf("task%d/clone-of-shared#%d", t, i))
+						noteCid(shared.CorrelationID(), fmt.Sprintf("task%d/shared-after-clone#%d", t, i))
 						// the clone is private: writing to it must not show in the original
 						c.AddRequestHeader("clone-only", "x")
 						c.AddResponseHeader("clone-only", "x")
@@ -319,7 +334,7 @@ func ctxHarness(rc *RunCtx) {
 						shared.ResponseHeaders()
 						setTimeout(t, 1000)
 						getTimeout(t)
-						shared.CorrelationID()
+						noteCid(shared.CorrelationID(), fmt.Sprintf("task%d/shared#%d", t, i))
 					}
 				}
 				simrt.Send(siteDone, doneC, t)
